@@ -187,7 +187,9 @@ class LinearPaths:
         if count_tag in s.tagnames:
           if count_tag not in retval:
             retval[count_tag] = 0
-          retval[count_tag] += int(retval[count_tag]*multfactor)
+          retval[count_tag] += s.get(count_tag)
+      if count_tag in retval:
+        retval[count_tag] = int(retval[count_tag]*multfactor)
     return retval
 
   def _add_segment_to_merged(self, merged, segment, is_reversed, cut, init,
@@ -340,7 +342,7 @@ class LinearPaths:
           raise gfapy.InconsistencyError(
               "Computed sequence length {} ".format(len(merged.sequence))+
               "and computed LN {} differ".format(merged.LN))
-    if merged.length is not None:
+    if merged.length is None:
       for count_tag in ["KC", "RC", "FC"]:
         merged.set(count_tag, None)
     else:
